@@ -123,6 +123,12 @@ pub fn evaluate(ctx: &Ctx, knobs: &GenKnobs, calls: &[CallRec], exchanges: &[Exc
     let records = &core.records;
     signature(ctx, calls, exchanges);
     panics(ctx, calls, exchanges);
+    if records.iter().any(|r| r.refused) {
+        // the handler was scripted to refuse: the call fails by design; what remains to be
+        // checked is that nothing non-safe shows up in a safe channel
+        c09(ctx, knobs, calls, exchanges, true);
+        return;
+    }
     // blocking runs execute their calls strictly one after the other
     let sequential = !is_async || calls.len() == 1;
     if exchanges.iter().any(|e| e.registered != (true, true)) {
@@ -134,7 +140,7 @@ pub fn evaluate(ctx: &Ctx, knobs: &GenKnobs, calls: &[CallRec], exchanges: &[Exc
     }
     c04(ctx, calls, exchanges, records);
     c07(ctx, calls, exchanges, records);
-    c09(ctx, knobs, calls, exchanges);
+    c09(ctx, knobs, calls, exchanges, false);
     c19(ctx, calls, exchanges);
     c06(ctx, calls, exchanges, records, sequential);
     c18(ctx, calls, exchanges, records, sequential);
@@ -660,7 +666,7 @@ pub fn safe_channels(exchanges: &[Exchange]) -> Vec<(String, String)> {
     v
 }
 
-fn c09(ctx: &Ctx, knobs: &GenKnobs, calls: &[CallRec], exchanges: &[Exchange]) {
+fn c09(ctx: &Ctx, knobs: &GenKnobs, calls: &[CallRec], exchanges: &[Exchange], handler_refused: bool) {
     let canaries = [knobs.alpha.clone(), knobs.digits.to_string(), format!("{:08x}", knobs.hex)];
     for c in calls {
         if let Some((tok, dbg)) = &c.token_debug {
@@ -753,6 +759,7 @@ fn c09(ctx: &Ctx, knobs: &GenKnobs, calls: &[CallRec], exchanges: &[Exchange]) {
         // deliverable request must end up recorded, whatever this thread or service handled before
         if undamaged
             && ex.routed == Some(call.ep)
+            && !handler_refused
             && !matches!(call.result, CallResult::Cancelled)
             && header_deliverable(call, meta)
             && within_limit(exchanges, ex.call as usize, meta)
